@@ -67,7 +67,7 @@ NOT_APPLICABLE = {
     'C16': 'exactly-once iteration is the contract of std HashMap / dashmap iterators (dependencies, assumed not verified) and of schedules; the only repository code on that path, the expiry filter is_expired_entry, is decided under C05/C06',
 }
 
-_UNS = 'Proof level holds for the single-threaded cache (src/unsync/cache.rs, src/unsync/deques.rs). The concurrent cache mutates shared state through &self (atomics, Mutex, DashMap), which neither back end can frame: of it only leaf predicates, counter arithmetic, the lookup composition and (quiescent case) Inner::admit are under contract; its maintenance is exercised by the bounded runtime stand-in rt_sync in sequential histories only, schedules are not covered. '
+_UNS = 'Proof level holds for the single-threaded cache (src/unsync/cache.rs, src/unsync/deques.rs). The concurrent cache mutates shared state through &self (atomics, Mutex, DashMap), which neither back end can frame: of it only leaf predicates, counter arithmetic, the lookup composition, (quiescent case) Inner::admit and the bookkeeping steps handle_admit / handle_remove / handle_remove_with_deques with the tagged-pointer layer common/concurrent/deques.rs (unit sync_maint, shared entry state read as \'what this call reads\') are under contract; its maintenance is exercised by the bounded runtime stand-in rt_sync in sequential histories only, schedules are not covered. '
 _ENV = 'Assumed contracts (trusted): std HashMap as a map view; common/deque.rs (raw pointers) as a sequence view, checked separately by complete single-operation Kani window harnesses and bounded sequences; unsync/deques.rs and the ValueEntry accessors are PROVED against that view in unit udeques, the cache unit uses their contracts; Instant/Duration arithmetic, std::cmp::min/max, a pure weigher, key identity through Hash/Eq/Borrow coherence, fewer than 2^32 entries, one named clock reading per operation.'
 
 CLAIMS = {
